@@ -203,6 +203,22 @@ theorem iterate_info (E : Nat) (hE : ∀ p, -(E : Int) ≤ g.eval p ∧ g.eval p
         | nil => exact ih _ _ _ s2 hi2
         | cons first rest =>
           dsimp only
+          -- the fall-back move handed over in the first iteration: a `sent` report, no info line
+          obtain ⟨s2', hfb, hsz2', hi2'⟩ : ∃ s2', sendFallback c first s2 = .ok () s2' ∧ Sz s2' ∧ InfoOK s2' := by
+            unfold sendFallback
+            by_cases hc1 : c = 1
+            · rw [if_pos hc1]
+              obtain ⟨s', h', hr', l'⟩ := report_run (.sent first) s2
+              exact ⟨s', h', Sz_mono hsz2 l', infoOK_sent first hr' hi2⟩
+            · rw [if_neg hc1]
+              exact ⟨s2, rfl, hsz2, hi2⟩
+          rw [outState_bind_ok hfb]
+          clear hsz2 hi2 hfb
+          have hsz2 := hsz2'
+          have hi2 := hi2'
+          revert hsz2 hi2
+          generalize s2' = s2
+          intro hsz2 hi2
           have hrl := rootLoop_info g ord E hE hEp fuel c first (first :: rest) (-Gen.posInf) b s2 hsz2 hi2 (Or.inl rfl)
           cases hr : rootLoop g ord fuel c first (first :: rest) (-Gen.posInf) b s2 with
           | panic s3 => rw [outState_bind_panic hr]; rw [hr] at hrl; exact hrl
